@@ -30,7 +30,23 @@ fn main() {
     let kss: Vec<_> = (0..w.nks).map(|i| db.keyspace(&format!("ks{i}"), || KeyspaceCreateOptions::default().manual_journal_persist(w.manual)).unwrap()).collect();
     println!("IDS {}", kss.iter().map(|k| k.id().to_string()).collect::<Vec<_>>().join(","));
     println!("SEQ {}", db.seqno());
+    // optional second writer (C13, multi-thread clause): it has passed everything that comes before
+    // the journal lock in `insert` and is held at the `write.begin` pause point; it is released right
+    // after the first operation of the main thread failed (or at the end) and must then be refused
+    let two = std::env::var("VERIF_TWO_WRITERS").is_ok();
+    let go = std::sync::Arc::new(std::sync::atomic::AtomicBool::new(false));
+    let second = if two {
+        thread_local! { static SECOND: std::cell::Cell<bool> = std::cell::Cell::new(false); }
+        let g2 = go.clone();
+        fjall::verif::pause::set(Some(std::sync::Arc::new(move |name: &'static str| {
+            if name == "write.begin" && SECOND.with(|s| s.get()) { while !g2.load(std::sync::atomic::Ordering::Acquire) { std::thread::sleep(std::time::Duration::from_millis(1)); } }
+        })));
+        let k = kss[0].clone();
+        Some(std::thread::spawn(move || { SECOND.with(|s| s.set(true)); cls(k.insert("second-writer", "x")) }))
+    } else { None };
+    if two { std::thread::sleep(std::time::Duration::from_millis(30)); }
     if let Ok(p) = std::env::var("VERIF_SHIM_ARM_FILE") { std::fs::write(p, b"1").unwrap(); }
+    let mut second = second;
     for (i, op) in w.ops.iter().enumerate() {
         let seq = db.seqno();
         let r = match op {
@@ -48,7 +64,9 @@ fn main() {
             WOp::RotateJournal => cls(fjall::verif::verif_rotate_journal(&db)),
         };
         println!("R {i} {r} {seq}");
+        if r != "ok" { if let Some(h) = second.take() { go.store(true, std::sync::atomic::Ordering::Release); println!("B {i} {}", h.join().unwrap_or_else(|_| "panic".into())); } }
     }
+    if let Some(h) = second.take() { go.store(true, std::sync::atomic::Ordering::Release); println!("B end {}", h.join().unwrap_or_else(|_| "panic".into())); }
     drop(kss);
     drop(db);
     println!("R drop ok 0");
